@@ -8,6 +8,7 @@ mod gen;
 mod ops;
 mod replay;
 mod scen_api;
+mod scen_build;
 mod scen_file;
 mod scen_sink;
 mod taut;
@@ -25,6 +26,9 @@ fn main() {
     quiet_panics();
     match args.pos[0].as_str() {
         "record" => record(&args),
+        "digest" => {
+            scen_build::digest_child(args.pos[1].parse().unwrap(), &args.pos[2], args.num("seed", 1), &args.get("tier", "quick"));
+        }
         "replay-calls" => {
             let mut s = api::Sess::new(&args.get("out", "trace.ndjson"));
             replay::calls(&mut s, &args.pos[1], args.num("seed", 1));
@@ -66,6 +70,16 @@ fn record(args: &Args) {
             let panics = s.panics;
             let (n, counts) = s.log.finish();
             println!("{}", json!({"scenario": scen, "events": n, "counts": counts, "panics": panics}));
+        }
+        "c12" | "c15" => {
+            let mut log = Log::create(&out);
+            if scen == "c12" {
+                scen_build::c12(&mut log, seed, &tier)
+            } else {
+                scen_build::c15(&mut log, seed, &tier)
+            }
+            let (n, counts) = log.finish();
+            println!("{}", json!({"scenario": scen, "events": n, "counts": counts, "panics": 0}));
         }
         "c07" | "c11" => {
             let mut log = Log::create(&out);
